@@ -66,8 +66,13 @@ func genRepo(r *gen.Rand, name string, rank uint16) crepo {
 	n := r.Range(1, 8)
 	names := append([]string(nil), fileNames...)
 	gen.Shuffle(r, names)
+	allEmpty := r.Chance(1, 10) // a shard whose documents are all empty: average file length 0
 	for i := 0; i < n && i < len(names); i++ {
-		rp.Docs = append(rp.Docs, genDoc(r, names[i]))
+		d := genDoc(r, names[i])
+		if allEmpty {
+			d = cdoc{Name: names[i]}
+		}
+		rp.Docs = append(rp.Docs, d)
 	}
 	return rp
 }
